@@ -313,3 +313,19 @@ func typeNameOf(t types.Type) string {
 	}
 	return t.String()
 }
+
+// selRecvTerm returns the term of the value received by the chosen arm of a
+// select effect.  go/ssa's Select tuple has one r_i per *receive* state, so
+// the slot is the ordinal of the arm among the receive states.
+func selRecvTerm(e *Effect) *Term {
+	if e == nil || e.Arm < 0 || e.Arm >= len(e.Sel) || e.Sel[e.Arm].Dir == types.SendOnly {
+		return nil
+	}
+	ord := 0
+	for i := 0; i < e.Arm; i++ {
+		if e.Sel[i].Dir != types.SendOnly {
+			ord++
+		}
+	}
+	return &Term{K: "selrecv", S: fmt.Sprint(ord), A: []*Term{e.Res}}
+}
